@@ -79,21 +79,34 @@ def l2_fn():
 
 
 # ------------------------------------------------------------------------------------------------ running one case
-def run_case(ctx, case, wd, idx):
-    """writes the VCF, runs the real CLI, abstracts input and output. Returns a result dict."""
-    d = os.path.join(wd, f"c{idx}")
-    os.makedirs(d, exist_ok=True)
-    path = os.path.join(d, "in.vcf")
-    with open(path, "w") as f:
-        f.write(case["vcf"])
-    samples, contigs, groups = G.abstract_vcf(path, case.get("sample"))
-    inp = path
-    if case.get("indexed"):
-        import pysam
-        pysam.tabix_index(path, preset="vcf", force=True)
-        inp = path + ".gz"
-    args = ["stats", "--tsv", os.path.join(d, "o.tsv"), "--block-list", os.path.join(d, "o.bl"),
-            "--gtf", os.path.join(d, "o.gtf")]
+def prepare_input(path, container):
+    """the generated text VCF in the requested container; returns the path handed to whatshap"""
+    import pysam
+    if container == "vcf":
+        return path
+    if container == "gz":
+        pysam.tabix_compress(path, path + ".gz", force=True)
+        return path + ".gz"
+    if container in ("gz+tbi", "gz+csi"):
+        pysam.tabix_index(path, preset="vcf", force=True, csi=container.endswith("csi"))
+        return path + ".gz"
+    bcf = path[:-4] + ".bcf"
+    with pysam.VariantFile(path) as vin, pysam.VariantFile(bcf, "wb", header=vin.header) as vout:
+        for r in vin:
+            vout.write(r)
+    if container == "bcf+csi":
+        pysam.bcftools.index(bcf, catch_stdout=False)
+    return bcf
+
+
+def stats_args(case, d, inp, outputs):
+    args = ["stats"]
+    if "tsv" in outputs:
+        args += ["--tsv", os.path.join(d, "o.tsv")]
+    if "bl" in outputs:
+        args += ["--block-list", os.path.join(d, "o.bl")]
+    if "gtf" in outputs:
+        args += ["--gtf", os.path.join(d, "o.gtf")]
     if case.get("only_snvs"):
         args.append("--only-snvs")
     for c in case.get("chromosomes") or []:
@@ -101,27 +114,73 @@ def run_case(ctx, case, wd, idx):
     if case.get("sample"):
         args += ["--sample", case["sample"]]
     if case.get("chr_lengths") is not None:
+        args += ["--chr-lengths", os.path.join(d, "lengths.tsv")]
+    args.append(inp)
+    return args
+
+
+def run_case(ctx, case, wd, idx):
+    """writes the VCF, runs the real CLI, abstracts input and output. Returns a result dict."""
+    d = os.path.join(wd, f"c{idx}")
+    os.makedirs(d, exist_ok=True)
+    path = os.path.join(d, "in.vcf")
+    with open(path, "w") as f:
+        f.write(case["vcf"])
+    container = case.get("container") or ("gz+tbi" if case.get("indexed") else "vcf")
+    inp = prepare_input(path, container)
+    samples, contigs, groups = G.abstract_vcf(inp, case.get("sample"))          # what whatshap's own parser sees
+    if case.get("chr_lengths") is not None:
         with open(os.path.join(d, "lengths.tsv"), "w") as f:
             for name, ln in case["chr_lengths"].items():
                 f.write(f"{name}\t{ln}\n")
-        args += ["--chr-lengths", os.path.join(d, "lengths.tsv")]
         contigs = [(name, case["chr_lengths"].get(name)) for name, _ in contigs]     # effective lengths
-    args.append(inp)
-    rc, so, se = run_cli(ctx, args, cwd=d)
     given = G.unpack_chromosomes(case.get("chromosomes"))
     ids = G.chrom_ids(contigs, groups, given)
+    full = ["tsv", "bl", "gtf"]
+    rc, so, se = run_cli(ctx, stats_args(case, d, inp, full), cwd=d)
     out = None
+    wanted = case.get("outputs") or full
+    if rc == 0 and set(wanted) != set(full):
+        # the numbers are taken from a run that was given only some of the output options
+        d2 = os.path.join(d, "reduced")
+        os.makedirs(d2, exist_ok=True)
+        if case.get("chr_lengths") is not None:
+            import shutil
+            shutil.copy(os.path.join(d, "lengths.tsv"), os.path.join(d2, "lengths.tsv"))
+        rc, so, se = run_cli(ctx, stats_args(case, d2, inp, wanted), cwd=d2)
+        for name in wanted:
+            src = os.path.join(d2, "o." + name)
+            if os.path.exists(src):
+                os.replace(src, os.path.join(d, "o." + name))
+            elif os.path.exists(os.path.join(d, "o." + name)):
+                os.unlink(os.path.join(d, "o." + name))
     if rc == 0:
-        out = G.parse_outputs(os.path.join(d, "o.tsv"), os.path.join(d, "o.bl"), os.path.join(d, "o.gtf"), ids)
+        try:
+            out = G.parse_outputs(os.path.join(d, "o.tsv"), os.path.join(d, "o.bl"), os.path.join(d, "o.gtf"), ids)
+        except (OSError, KeyError, ValueError, IndexError, AssertionError) as e:
+            # exit code 0 but an output file is missing / unreadable: an aborted run as far as the property goes
+            se = (se or "") + f"\n[harness] exit code 0 but outputs unusable: {type(e).__name__}: {e}"
+            out = "EOther"
     if out is None:
         out = G.error_kind(se)
     return dict(case=case, contigs=contigs, groups=groups, given=given, ids=ids, out=out, rc=rc,
                 err=se.strip().splitlines()[-1] if se.strip() else "", stderr=se[-1500:])
 
 
+def is_indexed(c):
+    return "+" in c["container"] if c.get("container") else bool(c.get("indexed"))
+
+
+def l2_only(c):
+    """inputs the property does not speak about (the model still has to agree): unsorted, a chromosome in two
+    separate runs of records, a --chromosome name given twice"""
+    t = c.get("tags", {})
+    return bool(t.get("unsorted") or t.get("noncontiguous") or t.get("dup_chromosome_arg"))
+
+
 def res_term(res):
     c = res["case"]
-    return G.case_term(bool(c.get("only_snvs")), bool(c.get("indexed")), res["contigs"], res["groups"], res["given"],
+    return G.case_term(bool(c.get("only_snvs")), is_indexed(c), res["contigs"], res["groups"], res["given"],
                        res["ids"], res["out"])
 
 
@@ -174,7 +233,7 @@ def reduced_case(res, pred):
 
 
 def oracle_fails(res):
-    if res["case"].get("tags", {}).get("unsorted"):
+    if l2_only(res["case"]):
         return False
     return not G.oracle_l1(bool(res["case"].get("only_snvs")), res["groups"], res["given"], res["ids"], res["out"])
 
@@ -246,7 +305,7 @@ def shrink_failure(ctx, res, wd, tag, sig):
         if sig == SIG_HP:
             return r["rc"] != 0 and "'NoneType' object has no attribute 'split'" in r["stderr"]
         if crashed:
-            return r["rc"] != 0 and not r["case"].get("tags", {}).get("unsorted")
+            return r["rc"] != 0 and not l2_only(r["case"])
         return oracle_fails(r)
     small = shrink_list(body, bad)
     c = dict(start["case"])
@@ -305,8 +364,8 @@ def check_batch(ctx, results, wd, label, report=True):
     failing = coq_eval("C12" + label, results)
     l1 = []
     for i in failing["L1"]:
-        if results[i]["case"].get("tags", {}).get("unsorted"):
-            continue                        # malformed stream: the property does not speak; L2 compares the rejection
+        if l2_only(results[i]["case"]):
+            continue                        # malformed stream: the property does not speak; L2 compares the behaviour
         l1.append(i)
     if report and l1:
         by_sig = {}
@@ -394,7 +453,7 @@ def run(ctx):
     ctx.log(f"{len(cases)} cases run through the CLI in {time.time() - t0:.0f}s")
     for r in results:
         c = r["case"]
-        key = (G.case_term(bool(c.get("only_snvs")), bool(c.get("indexed")), r["contigs"], r["groups"], r["given"], r["ids"], "EOther"))
+        key = (G.case_term(bool(c.get("only_snvs")), is_indexed(c), r["contigs"], r["groups"], r["given"], r["ids"], "EOther"))
         ctx.count(key, nontrivial=nontrivial(r))
         t = c.get("tags", {})
         ctx.tally("cases")
